@@ -550,6 +550,7 @@ func runC04(p *core.Program, r *core.Report) {
 	}
 	reflectPreconditionRule(p, r, regionNames)
 	staleLengthRule(p, r, regionNames)
+	makeLengthRule(p, r, regionNames)
 	r.Analysed["K1_explicit_panics_in_U"] = nK1
 	r.Analysed["K2_hard_assertions_in_U"] = nK2
 
@@ -771,6 +772,7 @@ func c04Controls() []core.Mutant {
 		{Name: "ambiguous operator function dereferenced", File: "conf/config.go", Old: "!ok || fnType.Type == nil || fnType.Type.Kind()", New: "!ok || fnType.Type.Kind()", Rule: "R4.3", Construct: "conf.(Config).Check/reflect.Type operations"},
 		{Name: "REFACTORING: nil test as an early return", File: "checker/checker.go", Silent: true, Old: "\t\tdefault:\n\t\t\tif t == nil || t.Kind() != v.expect {\n\t\t\t\treturn nil, fmt.Errorf(\"expected %v, but got %v\", v.expect, t)\n\t\t\t}", New: "\t\tdefault:\n\t\t\tif t == nil {\n\t\t\t\treturn nil, fmt.Errorf(\"expected %v, but got %v\", v.expect, t)\n\t\t\t}\n\t\t\tif t.Kind() != v.expect {\n\t\t\t\treturn nil, fmt.Errorf(\"expected %v, but got %v\", v.expect, t)\n\t\t\t}"},
 		{Name: "checker loses the ConstantNode clause", File: "checker/checker.go", Old: "\tcase *ast.ConstantNode:\n\t\tt = v.ConstantNode(n)\n", New: "", Rule: "R4.2", Construct: "ConstantNode"},
+		{Name: "compile-time range guarded by the bounds instead of the size", File: "optimizer/const_range.go", Old: "\t\t\t\t\tif size < 1 {", New: "\t\t\t\t\tif max.Value < min.Value {", Rule: "R4.3", Construct: "make#"},
 		{Name: "compiler recover removed", File: "compiler/compiler.go", Old: "\tdefer func() {\n\t\tif r := recover(); r != nil {\n\t\t\terr = fmt.Errorf(\"%v\", r)\n\t\t}\n\t}()\n", New: "", Rule: "R4.3", Construct: "panic"},
 		{Name: "VM handler swallows the panic", File: "vm/vm.go", Old: "\t\t\terr = f.Bind(program.Source)\n", New: "\t\t\t_ = f.Bind(program.Source)\n", Rule: "R4.1", Construct: "vm.(VM).Run"},
 		{Name: "explicit panic in the parser", File: "parser/parser.go", Old: "func (p *parser) error(format string, args ...interface{}) {\n", New: "func (p *parser) error(format string, args ...interface{}) {\n\tif len(args) > 8 {\n\t\tpanic(\"too many arguments\")\n\t}\n", Rule: "R4.3", Construct: "parser"},
